@@ -1,2 +1,4 @@
 pub mod rng;
 pub mod hex;
+pub mod sexp;
+pub mod dsl;
